@@ -96,7 +96,9 @@ def gen(rng, min_events=3, **kwargs):
 
 
 def gen_once(rng, two_bands=False, gaps=None, step=None, grid_step=None, n_events=None, et_mode=None, top=None):
-    step = step or rng.choice([900, 1200, 1800, 3600])
+    # also steps whose length in hours does not convert back to whole seconds by truncation
+    # (3900, 7380, 230), a minute and a day
+    step = step or rng.choice([900, 1200, 1800, 3600, 900, 1200, 1800, 3600, 3900, 7380, 230, 60, 86400])
     sy = rng.choice([0.1, 0.25, 0.2, 0.5, 0.33])
     sthr = rng.choice([2.0, 4.0, 8.0])
     jthr = rng.choice([4.0, 5.0, 8.0])
